@@ -565,7 +565,7 @@ pub fn gen_history_cases(prop: &str, tier: &str, rng: &mut Rng, start: usize, n:
                 }
                 let themes: Vec<Theme> = match prop {
                     "C05" => vec![Theme::CaseVariants, Theme::Separators, Theme::SuffixTraps, Theme::Concat, Theme::Keywords, Theme::Mixed, Theme::NumberedNames],
-                    "C14" => vec![Theme::Recurring, Theme::Concat, Theme::CaseVariants, Theme::Plain, Theme::Prelude, Theme::Mixed, Theme::NumberedNames],
+                    "C14" => vec![Theme::Recurring, Theme::Concat, Theme::CaseVariants, Theme::Plain, Theme::Prelude, Theme::Mixed, Theme::NumberedNames, Theme::Separators, Theme::SuffixTraps, Theme::RandomNames],
                     _ => gen::THEMES.to_vec(),
                 };
                 if prop == "C09" {
